@@ -31,7 +31,7 @@ def _one(job):
     if j is None:
         return None
     locus = ("accept" if ref["verdict"] == "accept" else
-             ("unspecified" if ref["verdict"] == "unspec" else "%s:%s" % (ref["kind"], ref["why"])))
+             ("unspecified" if ref["verdict"] == "unspec" else (ref["why"] if ref["kind"] == "parse" else "lex:" + ref["why"])))
     return (j[0], {"config": config, "locus": locus, "features": (loaders.features(ref["tree"]) if ref["verdict"] == "accept" else []) + loaders.text_features(text),
                    "observed": j[1]},
             {"config": config, "text": text}, {"reference": ref, "observed": obs})
